@@ -8,13 +8,15 @@ by B).
 """
 from __future__ import annotations
 
+import copy
+import functools
 from typing import Any, List
 
 from hypothesis import strategies as st
 
 from vlib import gen_instr as g
 from vlib import refenc
-from vlib.runner import Ctx, Failure
+from vlib.runner import Ctx, Failure, HarnessError
 
 LEVEL = "exploration"
 RULE = (
@@ -22,7 +24,13 @@ RULE = (
     "(all fields pairwise different; walking one over every bit of every field) enumerated completely, "
     "plus header walking ones, plus Hypothesis-random valuations and whole subroutines; a case is "
     "non-trivial when it distinguishes a field/bit (all enumerated ones) or has a boundary operand / >=2 "
-    "operand fields (random ones); distinct by (flavour, class, valuation)"
+    "operand fields (random ones); distinct by (flavour, class, valuation). Every decoded command is also edited in "
+    "place by its receiver and the same bytes decoded again (must read as the first time). Histories on ONE "
+    "subroutine object (built or decoded from reference bytes; byte-identical commands at several places): "
+    "Hypothesis-random sequences of encode / operand edited in place (attribute or inner field of an array "
+    "operand) / instruction replaced in the list / append / remove / app-id setter / instructions setter / "
+    "instantiate / decode-the-first-bytes-again, each encoding compared with the reference encoding of a model "
+    "kept beside the object; a history is non-trivial when it has an in-place edit"
 )
 ASSUMPTIONS = [
     "the frozen opcode/operand-order table in vlib/refenc.py is the published table (copied from the pinned tree; "
@@ -79,6 +87,21 @@ def check_instr(fname: str, cls, vals: List[Any], deser=None) -> None:
         raise Failure(f"dec:{fname}:{cls.mnemonic}", case, f"decoder raised {type(e).__name__}: {e} on {ref.hex()}")
     if type(back) is not cls or back != instr:
         raise Failure(f"dec:{fname}:{cls.mnemonic}", case, f"reference bytes {ref.hex()} of {instr} decode as {back}")
+    # the receiver edits the decoded command in place (every operand set to another value, as compiler passes do);
+    # the same bytes decoded again must read as the first time: a decoding depends on the bytes alone
+    shape = g.shape_of(cls)
+    if shape:
+        for (name, kind), v, alt in zip(shape, vals, all_distinct(shape)):
+            setattr(back, name, g.operand_from_json(kind, alt if alt != v else _ZERO[kind]))
+        try:
+            again = deser.deserialize_command(ref)
+        except Exception as e:
+            raise Failure(f"dec-again:{fname}", case, f"decoder raised {type(e).__name__}: {e} on the second decoding of {ref.hex()}")
+        if type(again) is not cls or again != instr:
+            raise Failure(
+                f"dec-again:{fname}", case, f"reference bytes {ref.hex()} of {instr} were decoded, the decoded object was edited in place to {back}, "
+                f"and the same bytes then decode as {again}"
+            )
 
 
 def check_header(version, app_id) -> None:
@@ -237,6 +260,241 @@ def enumerated_cases(fname: str):
                 vals[pos] = v
                 yield cls, vals
 
+# ------------------------------------------------------------------ histories on one subroutine object
+
+# what can happen to one Subroutine object between two encodings (weights by repetition)
+_STEP_KINDS = [
+    "encode", "encode", "encode", "encode", "encode",
+    "set", "set", "set", "set",
+    "replace", "replace",
+    "append", "remove", "app_id", "reassign", "instantiate", "redecode",
+]
+_EDITS = ("set", "replace")
+
+
+def _listed(fname: str):
+    return [c for c in g.flavour_classes(fname) if c.mnemonic in refenc.TABLE[fname]]
+
+
+@functools.lru_cache(maxsize=None)
+def _st_listed_instr(fname: str):
+    return st.one_of([g.st_instr_of(c) for c in _listed(fname)])
+
+
+@st.composite
+def st_history(draw, fname: str):
+    """JSON script: a subroutine (with byte-identical commands at several places), how the object is obtained
+    (built from operands / decoded from reference bytes) and a sequence of steps on that one object."""
+    sti = _st_listed_instr(fname)
+    instrs = draw(st.lists(sti, min_size=1, max_size=5))
+    for k in draw(st.lists(st.integers(0, 4), max_size=3)):
+        instrs.insert(draw(st.integers(0, len(instrs))), copy.deepcopy(instrs[k % len(instrs)]))
+    model = copy.deepcopy(instrs)
+    steps: List[List[Any]] = []
+    for kind in draw(st.lists(st.sampled_from(_STEP_KINDS), min_size=1, max_size=8)):
+        if kind in ("set", "replace", "remove") and not model:
+            continue
+        if kind == "set":
+            i = draw(st.integers(0, len(model) - 1))
+            shape = g.shape_of(g.class_by_name(fname, model[i][0]))
+            if not shape:
+                continue
+            pos = draw(st.integers(0, len(shape) - 1))
+            k_ = shape[pos][1]
+            v = draw(g.st_operand(k_))
+            inner = k_ in ("entry", "slice") and draw(st.booleans())
+            step = ["set", i, pos, v, inner]
+        elif kind == "replace":
+            step = ["replace", draw(st.integers(0, len(model) - 1)), draw(sti)]
+        elif kind == "append":
+            step = ["append", draw(sti)]
+        elif kind == "remove":
+            step = ["remove", draw(st.integers(0, len(model) - 1))]
+        elif kind in ("app_id", "instantiate"):
+            step = [kind, draw(st.sampled_from([0, 1, 255, 256, 65535]) | st.integers(0, 65535))]
+        else:
+            step = [kind]
+        _model_step(fname, model, step)
+        steps.append(step)
+    return {
+        "kind": "history",
+        "flavour": fname,
+        "app_id": draw(st.sampled_from([0, 1, 255, 256, 65535]) | st.integers(0, 65535)),
+        "version": list(draw(st.tuples(g.st_u8, g.st_u8))),
+        "via": draw(st.sampled_from(["build", "decode"])),
+        "instrs": instrs,
+        "steps": steps,
+    }
+
+
+def _model_step(fname: str, model: List[List[Any]], step: List[Any]) -> None:
+    """the effect of a step on the model (list of [class name, mnemonic, values]); the app id is tracked by the caller"""
+    kind = step[0]
+    if kind == "set":
+        _k, i, pos, v, _inner = step
+        vals = list(model[i][2])
+        vals[pos] = copy.deepcopy(v)
+        model[i] = [model[i][0], model[i][1], vals]
+    elif kind == "replace":
+        model[step[1]] = copy.deepcopy(step[2])
+    elif kind == "append":
+        model.append(copy.deepcopy(step[1]))
+    elif kind == "remove":
+        del model[step[1]]
+
+
+def history_labels(j) -> List[str]:
+    """non-triviality labels of a history, from the script alone"""
+    fname = j["flavour"]
+    labs = {f"hist:{fname}", f"hist:via-{j['via']}"}
+    model = copy.deepcopy(j["instrs"])
+    clean, pending, edited = False, False, False
+    for step in list(j["steps"]) + [["encode"]]:
+        kind = step[0]
+        if kind == "encode":
+            if pending:
+                labs.add("hist:encode-edit-encode")
+            clean, pending = True, False
+        elif kind in _EDITS:
+            edited = True
+            pending = pending or clean
+            i = step[1]
+            if any(k != i and m[0] == model[i][0] and m[2] == model[i][2] for k, m in enumerate(model)):
+                labs.add("hist:edit-of-a-command-present-twice")
+            if kind == "set" and step[4]:
+                labs.add("hist:edit-inside-array-operand")
+        elif kind == "redecode":
+            if edited:
+                labs.add("hist:decode-again-after-edit")
+        else:
+            clean, pending = False, False
+            labs.add("hist:" + kind)
+        _model_step(fname, model, step)
+    if edited:
+        labs.add("hist:has-in-place-edit")
+        if j["via"] == "decode":
+            labs.add("hist:decode-again-after-edit")
+    return sorted(labs)
+
+
+def check_history(j) -> None:
+    """One Subroutine object through a sequence of encodings and in-place changes: every encoding is the reference
+    encoding of what the object holds at that moment (model kept beside it), an edit of one instruction leaves the
+    others alone, and the bytes the history started from decode, at any later moment, as they did the first time."""
+    from netqasm.lang import operand as op
+    from netqasm.lang.parsing import deserialize
+
+    fname, via = j["flavour"], j["via"]
+    flav = g.FLAVOURS[fname]
+    version, app_id = j["version"], j["app_id"]
+    case = dict(j)
+    model = copy.deepcopy(j["instrs"])
+
+    def ref_of(mdl, aid):
+        return refenc.encode_subroutine(fname, version, aid, [(m, v) for _c, m, v in mdl])
+
+    ref0 = ref_of(model, app_id)
+    first = [g.instr_from_json_cls(fname, c, v) for c, _m, v in model]
+    if via == "decode":
+        sub = deserialize(ref0, flavour=flav())
+    else:
+        sub = g.build_subroutine(j)
+    done: List[str] = []
+
+    def trail():
+        return " > ".join(done) or "(nothing yet)"
+
+    def expect_encoding():
+        last = next((k for k in reversed(done) if k != "encode"), "start")
+        try:
+            got = bytes(sub)
+        except Exception as e:
+            raise Failure(f"history:enc-raises:{via}:after-{last}", case, f"after [{trail()}] encoding raised {type(e).__name__}: {e}")
+        ref = ref_of(model, app_id)
+        if got != ref:
+            joined = refenc.encode_header(version, app_id) + b"".join(bytes(i.serialize()) for i in sub.instructions)
+            n = max(len(got), len(ref))
+            blocks = [b for b in range((n - 4 + 6) // 7 + 1) if got[max(0, 4 + 7 * (b - 1)) : 4 + 7 * b] != ref[max(0, 4 + 7 * (b - 1)) : 4 + 7 * b]]
+            how = "the instructions encoded one by one give the reference bytes" if joined == ref else "the instructions encoded one by one differ from the reference as well"
+            raise Failure(
+                f"history:enc:{via}:after-{last}",
+                case,
+                f"subroutine obtained by '{via}', then [{trail()}], then encoded: blocks {blocks} (0 = header) differ from the reference encoding of its "
+                f"current instructions ({got.hex()} vs {ref.hex()}); {how}",
+            )
+
+    def expect_others_untouched(i):
+        for k, (_c, m, v) in enumerate(model):
+            if k == i:
+                continue
+            if bytes(sub.instructions[k].serialize()) != refenc.encode_instr(fname, m, v):
+                raise Failure(
+                    f"history:edit-leaks:{via}", case, f"subroutine obtained by '{via}', then [{trail()}]: the edit of instruction {i} changed instruction {k} to {sub.instructions[k]}"
+                )
+
+    def expect_first_bytes_read_the_same():
+        try:
+            back = deserialize(ref0, flavour=flav())
+        except Exception as e:
+            raise Failure(f"history:dec-again:{via}", case, f"after [{trail()}] decoding the first bytes again raised {type(e).__name__}: {e}")
+        if (
+            back.instructions != first
+            or [type(i) for i in back.instructions] != [type(i) for i in first]
+            or tuple(back.netqasm_version) != tuple(version)
+            or back.app_id != j["app_id"]
+        ):
+            bad = [k for k, (a, b) in enumerate(zip(back.instructions, first)) if a != b or type(a) is not type(b)]
+            raise Failure(
+                f"history:dec-again:{via}",
+                case,
+                f"subroutine obtained by '{via}', then [{trail()}], then the reference bytes of the initial subroutine ({ref0.hex()}) decoded again: "
+                f"instructions {bad} read differently ({[str(back.instructions[k]) for k in bad[:3]]} instead of {[str(first[k]) for k in bad[:3]]})",
+            )
+        if bytes(back) != ref0:
+            raise Failure(f"history:dec-again:{via}", case, f"after [{trail()}] the first bytes decoded again re-encode to {bytes(back).hex()} instead of {ref0.hex()}")
+
+    for step in j["steps"]:
+        kind = step[0]
+        if kind == "encode":
+            expect_encoding()
+        elif kind == "set":
+            _k, i, pos, v, inner = step
+            name, k_ = g.shape_of(g.class_by_name(fname, model[i][0]))[pos]
+            instr = sub.instructions[i]
+            if inner:
+                o = getattr(instr, name)
+                o.address = op.Address(v["addr"])
+                if k_ == "entry":
+                    o.index = g.reg_from_str(v["idx"])
+                else:
+                    o.start = g.reg_from_str(v["start"])
+                    o.stop = g.reg_from_str(v["stop"])
+            else:
+                setattr(instr, name, g.operand_from_json(k_, v))
+        elif kind == "replace":
+            sub.instructions[step[1]] = g.instr_from_json_cls(fname, step[2][0], step[2][2])
+        elif kind == "append":
+            sub.instructions.append(g.instr_from_json_cls(fname, step[1][0], step[1][2]))
+        elif kind == "remove":
+            del sub.instructions[step[1]]
+        elif kind == "app_id":
+            sub.app_id = app_id = step[1]
+        elif kind == "reassign":
+            sub.instructions = list(sub.instructions)
+        elif kind == "instantiate":
+            sub.instantiate(step[1], {})
+            app_id = step[1]
+        elif kind == "redecode":
+            expect_first_bytes_read_the_same()
+        else:
+            raise HarnessError(f"unknown history step {step}")
+        _model_step(fname, model, step)
+        done.append(kind)
+        if kind in _EDITS:
+            expect_others_untouched(step[1])
+    expect_encoding()
+    expect_first_bytes_read_the_same()
+
 
 def shard(ctx: Ctx) -> None:
     stt = ctx.stats
@@ -298,6 +556,7 @@ def shard(ctx: Ctx) -> None:
 
     n_rand = 3000 if ctx.tier == "quick" else 30000
     n_sub = 300 if ctx.tier == "quick" else 2000
+    n_hist = 600 if ctx.tier == "quick" else 6000
     for fi, fname in enumerate(g.FLAVOURS):
 
         def body(j, fname=fname):
@@ -317,6 +576,13 @@ def shard(ctx: Ctx) -> None:
 
         ctx.search(g.st_subroutine(fname, 12), body_sub, n_sub // 3, name=f"c02-sub-{fname}", salt=10 + fi)
 
+        def body_hist(j):
+            labs = history_labels(j)
+            stt.case(["hist", j], "hist:has-in-place-edit" in labs, labs)
+            check_history(j)
+
+        ctx.search(st_history(fname), body_hist, n_hist // 3, name=f"c02-hist-{fname}", salt=20 + fi)
+
 
 def _try(ctx, fn, *a):
     ctx.attempt({"kind": "header", "args": list(a)}, fn, *a)
@@ -333,6 +599,8 @@ def replay(case):
             check_subroutine({k: case[k] for k in ("flavour", "app_id", "version", "instrs")})
         elif case["kind"] == "template":
             check_template(case)
+        elif case["kind"] == "history":
+            check_history(case)
         elif case["kind"] == "missing":
             have = {c.mnemonic for c in g.flavour_classes(case["flavour"])}
             if case["mnemonic"] not in have:
